@@ -16,7 +16,7 @@ from concurrent.futures import ThreadPoolExecutor
 VERIF = os.path.dirname(os.path.dirname(os.path.dirname(os.path.abspath(__file__))))
 BUILD = os.path.join(VERIF, "build")
 OUT = os.path.join(VERIF, "out")
-CACHE = os.path.join(OUT, "cache")
+CACHE = os.environ.get("YV_CACHE_DIR") or os.path.join(OUT, "cache")
 YAST = os.path.join(BUILD, "yast.so")
 YIR = os.path.join(BUILD, "yir")
 CXX = "clang++"
